@@ -786,12 +786,34 @@ def kernel_facts(extracted, cats, tier):
         stats = emit_catalog_facts(extracted, cats)
     except Exception as e:
         return {"status": "failed", "why": "emitting the facts: %r" % (e,)}
+    import signal
+
+    class _P:
+        pass
+    p = _P()
+    timed_out = False
+    # own process group: on a timeout stop exactly our lake/lean processes (never another verif tree's)
+    proc = subprocess.Popen(["lake", "build", "Properties.C17Facts"], cwd=LEAN, stdout=subprocess.PIPE,
+                            stderr=subprocess.STDOUT, text=True, start_new_session=True)
     try:
-        p = subprocess.run(["lake", "build", "Properties.C17Facts"], cwd=LEAN, stdout=subprocess.PIPE, stderr=subprocess.STDOUT,
-                           text=True, timeout=FACTS_BUDGET_S[tier])
+        out, _ = proc.communicate(timeout=FACTS_BUDGET_S[tier])
+        p.returncode, p.stdout = proc.returncode, out
     except subprocess.TimeoutExpired:
-        subprocess.run(["pkill", "-f", "Properties/C17Facts.lean"])
-        subprocess.run(["pkill", "-f", "Gen/CatalogFacts.lean"])
+        timed_out = True
+        try:
+            os.killpg(proc.pid, signal.SIGTERM)
+        except OSError:
+            pass
+        try:
+            proc.communicate(timeout=20)
+        except subprocess.TimeoutExpired:
+            try:
+                os.killpg(proc.pid, signal.SIGKILL)
+            except OSError:
+                pass
+    if not timed_out and p.returncode != 0 and ("exited with code 143" in p.stdout or "exited with code 137" in p.stdout):
+        timed_out = True     # stopped from outside: not a verdict of the kernel
+    if timed_out:
         return dict(stats, status="skipped", wall_s=round(time.time() - t0, 1),
                     why="the emitted facts differ from the last ones the kernel closed, and re-closing them exceeded the %s-tier budget "
                         "of %d s (reported, not silent; the compiled model evaluated the same acceptances this run)" % (tier, FACTS_BUDGET_S[tier]))
